@@ -6,7 +6,9 @@ from .common import *
 from .c01 import logical_bodies, SETTERS
 from . import c01, c02, c03, c04, wakers
 
-CONFIGS = ["all", "eyeball-async"]
+NEEDS_ASYNC = True
+
+CRATES = (EY,)
 
 META = {
     "explanation": (
@@ -102,9 +104,6 @@ def pairs(F):
 
 def run(ctx):
     F = ctx.facts
-    if not any("lock::AsyncLock" in (f.raw.get("self_ty") or "") for f in F.fns.values()):
-        ctx.missing("R16.0", "async-lock bodies (this configuration was built without the feature)")
-        return
     ps = pairs(F)
     n = 0
     for af, sf in ps:
